@@ -17,6 +17,7 @@ From Borno Require Import NumPrint.
 From Borno Require Import PrintFacts.
 From Borno Require Import NumShortestDefs.
 From Borno Require Import NumShortest.
+From Borno Require Import NumTotal.
 
 (** each executed print appends exactly one event carrying the text of its value (the driver adds the newline and normalises to NFC) *)
 Theorem C15_print_event_inv :
@@ -199,3 +200,56 @@ Theorem C15_shortest_digits_check_redundant :
          shortest_digits (BinarySingleNaN.B754_finite s m e Hb) = Some (d, x).
 Proof. exact (@shortest_digits_check_redundant). Qed.
 Print Assumptions C15_shortest_digits_check_redundant.
+
+(** every double has a text: the digit search never runs out (17 significant digits always suffice) *)
+Theorem C15_text_num_total :
+  forall f : f64, exists t : list N, text_num f = Some t.
+Proof. exact (@text_num_total). Qed.
+Print Assumptions C15_text_num_total.
+
+(** ...and never returns more than 17 digits *)
+Theorem C15_shortest_digits_le17 :
+  forall (f : f64) (d x : Z), shortest_digits f = Some (d, x) -> sigdigits d <= 17 /\ 0 < d < 10 ^ 17.
+Proof. exact (@shortest_digits_le17). Qed.
+Print Assumptions C15_shortest_digits_le17.
+
+(** NEAREST: among the decimals of that minimal length that read back as the double, the one printed is closest to it *)
+Theorem C15_shortest_digits_nearest_reads_back :
+  forall (f : f64) (d x d' x' : Z),
+         shortest_digits f = Some (d, x) ->
+         0 < d' ->
+         f_same (dec_to_f64 d' x') (BinarySingleNaN.Babs f) = true ->
+         sigdigits d' <= sigdigits d ->
+         QArith_base.Qle (Qabs.Qabs (QArith_base.Qminus (dq d x) (f64_absQ f)))
+           (Qabs.Qabs (QArith_base.Qminus (dq d' x') (f64_absQ f))).
+Proof. exact (@shortest_digits_nearest_reads_back). Qed.
+Print Assumptions C15_shortest_digits_nearest_reads_back.
+
+(** ...and on a tie the even digit string is printed *)
+Theorem C15_shortest_digits_tie_even :
+  forall (f : f64) (d x d' x' : Z),
+         shortest_digits f = Some (d, x) ->
+         0 < d' ->
+         in_f64_interval f d' x' = true ->
+         sigdigits d' <= sigdigits d ->
+         QArith_base.Qeq (Qabs.Qabs (QArith_base.Qminus (dq d x) (f64_absQ f)))
+           (Qabs.Qabs (QArith_base.Qminus (dq d' x') (f64_absQ f))) ->
+         ~ QArith_base.Qeq (dq d' x') (dq d x) -> Z.even d = true \/ d = 1.
+Proof. exact (@shortest_digits_tie_even). Qed.
+Print Assumptions C15_shortest_digits_tie_even.
+
+(** the same for the integer search itself (closed under the global context) *)
+Theorem C15_shortest_from_nearest :
+  forall (fuel : nat) (lo mid hi den : Z) (incl : bool) (E d x d' x' : Z),
+         0 < den ->
+         lo < mid < hi ->
+         le10b E mid den = true ->
+         lt10b (E + 1) mid den = true ->
+         shortest_from fuel 1 lo mid hi den incl E = Some (d, x) ->
+         0 < d' ->
+         in_interval lo hi den incl d' x' = true ->
+         sigdigits d' <= sigdigits d ->
+         QArith_base.Qle (Qabs.Qabs (QArith_base.Qminus (dq d x) (fr mid den)))
+           (Qabs.Qabs (QArith_base.Qminus (dq d' x') (fr mid den))).
+Proof. exact (@shortest_from_nearest). Qed.
+Print Assumptions C15_shortest_from_nearest.
